@@ -600,7 +600,7 @@ def _dec_kind(kind, data, off, end):
 
 def _enc_learn_spec(s):
   n_bits = s["n_bits"]
-  if not (0 < n_bits < 2048):
+  if not (0 < n_bits < 1024):         # NX_LEARN_N_BITS_MASK 0x3ff
     raise RefError("n_bits")
   src, dst = s["src"], s["dst"]
   srcv = {"field": 0, "immediate": 1}[src["t"]]
@@ -625,7 +625,9 @@ def _dec_learn_specs(data, off, end):
     if h == 0:
       break
     off += 2
-    srcv, dstv, n_bits = (h >> 13) & 1, (h >> 11) & 3, h & 0x7ff
+    srcv, dstv, n_bits = (h >> 13) & 1, (h >> 11) & 3, h & 0x3ff
+    if h & 0xc400:
+      raise RefError("reserved bits set in a flow_mod_spec header")
     if srcv == 0:
       if end - off < 6:
         raise RefError("truncated learn src")
@@ -742,6 +744,8 @@ def layout_of(kind):
     return STATS_REPLY[kind][2]
   if kind in STATS_REQUEST:
     return STATS_REQUEST[kind][1]
+  if kind == "ofp_generic_stats_body":
+    return [("data", "bytes")]
   if kind == "ofp_queue_prop_none":
     return [("data", "bytes")]
   if kind == "ofp_queue_prop_generic":
@@ -870,6 +874,8 @@ def encode(frag, fields=None):
     return _enc_layout(STATS_REPLY[kind][2], f, kind)
   if kind in STATS_REQUEST:
     return _enc_layout(STATS_REQUEST[kind][1], f, kind)
+  if kind == "ofp_generic_stats_body":
+    return _enc_layout([("data", "bytes")], f, kind)
   if kind == "ofp_queue_prop_none":
     return _enc_layout([("$property", "const", "u16", 0), ("$len", "len"), ("data", "bytes")], f, kind)
   if kind == "ofp_queue_prop_generic":
@@ -1006,8 +1012,9 @@ def decode(kind, data, offset=0):
       return f, o2 - offset
     f, o2 = _dec_kind(kind, data, off, len(data))
     return f, o2 - offset
-  if kind in STATS_REQUEST:
-    f, o2, _ = _dec_layout(STATS_REQUEST[kind][1], data, off, len(data), kind)
+  if kind in STATS_REQUEST or kind == "ofp_generic_stats_body":
+    lay = [("data", "bytes")] if kind == "ofp_generic_stats_body" else STATS_REQUEST[kind][1]
+    f, o2, _ = _dec_layout(lay, data, off, len(data), kind)
     return f, o2 - offset
   if kind in QUEUE_PROPS or kind == "ofp_queue_prop_generic":
     frag, o2 = _dec_prop(data, off, len(data))
@@ -1020,6 +1027,8 @@ def decode(kind, data, offset=0):
   if kind == "nxm_entry":
     e, o2 = _dec_nxm(data, off, len(data))
     return e, o2 - offset
+  if kind == "nx_match":
+    return {"entries": dec_nx_match(data, off, len(data) - off)}, len(data) - off
   raise RefError("unknown kind %r" % (kind,))
 
 
